@@ -233,8 +233,12 @@ func (c *completion) complete(args []string) []Completion {
 					// it consumes all subsequent args).
 					s.positional = s.positional[1:]
 				}
-			} else if cmd, ok := s.lookup.commands[arg]; ok {
+			} else if cmd, ok := s.lookup.commands[arg]; ok && len(s.retargs) == 0 {
 				cmd.fillParseState(s)
+			} else {
+				// like the parser: once a word has become a remaining
+				// argument, later words no longer select commands
+				s.retargs = append(s.retargs, arg)
 			}
 
 			opt = nil
